@@ -775,10 +775,7 @@ impl Expression {
                         ps.next(); // 'x'
                         let mut num = 0i64;
                         let peek = ps.peek::<0>()?;
-                        if !('0'..='9').contains(&peek)
-                            && !('a'..='z').contains(&peek)
-                            && !('A'..='Z').contains(&peek)
-                        {
+                        if !peek.is_ascii_hexdigit() {
                             ps.add_warning_at_current_position(
                                 ParseErrorKind::UnexpectedExpressionCharacter,
                             );
@@ -810,10 +807,7 @@ impl Expression {
                             if !is_ident_char(peek) {
                                 break;
                             }
-                            if !('0'..='9').contains(&peek)
-                                && !('a'..='z').contains(&peek)
-                                && !('A'..='Z').contains(&peek)
-                            {
+                            if !peek.is_ascii_hexdigit() {
                                 ps.add_warning_at_current_position(
                                     ParseErrorKind::UnexpectedExpressionCharacter,
                                 );
